@@ -147,6 +147,13 @@ def apply_op(run, w, k, op):
         par = node(w, op[2]) if len(op) > 2 else root
         par.transact(q, op[1])
         info['q'] = q
+    elif kind == 'transact_px':       # trade at a custom price (needs bid/offer data); op = ['transact_px', child, price, (parent path)]
+        q = run.integer('q%d' % k, -10 ** 4, 10 ** 4) if integer else run.real('q%d' % k, -10 ** 4, 10 ** 4)
+        par = node(w, op[3]) if len(op) > 3 else root
+        par._create_child_if_needed(op[1]) if hasattr(par, '_create_child_if_needed') else None
+        par[op[1]].transact(q, price=op[2])
+        info['q'] = q
+        info['px'] = op[2]
     elif kind == 'rebal':
         par = node(w, op[3]) if len(op) > 3 else root
         par.rebalance(op[2], op[1])
@@ -232,6 +239,8 @@ def _fund(run, w, prior=True):
                 if nme in par.children and not hasattr(par.children[nme], 'multiplier'):
                     continue
                 tag = 'pos_%s_%s' % (par.name, nme)
+                if w.cfg.get('subcash') and par is not w.root:
+                    continue               # sub-strategies hold cash only
                 if gridsub and par is not w.root:
                     # concrete prior inside sub-strategies: `amount * child weight` stays linear in the symbolic amount
                     q = GPOS[nme] if par.name != 'sub2' else 75.0
@@ -302,7 +311,13 @@ class Ghost:
         if 'nonflow' in info:
             self._add(self.nonflows, di, info['nonflow'])
         known = None
-        if op is not None and op[0] == 'transact':
+        if op is not None and op[0] == 'transact_px':
+            par = node(w, op[3]) if len(op) > 3 else w.root
+            known = par[op[1]]
+            q = info['q']
+            if abs(q) >= 1e-16:
+                self.trades.setdefault(di, []).append((known, q, known.price, known.parent, op[2]))
+        elif op is not None and op[0] == 'transact':
             # the harness knows this quantity exactly (a position delta would lose a 1e-16-sized trade in float64)
             par = node(w, op[2]) if len(op) > 2 else w.root
             known = par[op[1]]
@@ -317,10 +332,13 @@ class Ghost:
             if bool(abs(q) >= 1e-16) if not isinstance(q, float) else abs(q) >= 1e-16:
                 self.trades.setdefault(di, []).append((s, q, s.price, s.parent))
 
-    def trade_cost(self, s, q, price):
-        """(outlay, fee, bidoffer) the harness expects for a trade of q at the market price"""
+    def trade_cost(self, s, q, price, custom=None):
+        """(outlay, fee, bidoffer) the harness expects for a trade of q at the market price (or at a custom price)"""
         w = self.w
         m = s.multiplier
+        if custom is not None:
+            bo = q * (custom - price) * m
+            return q * custom * m, w.fee(q, custom * m), bo
         half = (SPREAD[s.name] * 0.5 * m) if w.spread_on else 0.0
         bo = abs(q) * half
         outlay = q * price * m + bo
